@@ -169,6 +169,11 @@ func VerifC19Reconnect() {
 			vrt.Settle()
 		}
 		old := w.cur
+		// the peer or the network ended the connection (the session is closed when the
+		// handler hears of it), or the event arrives while the session still counts as open
+		if vrt.Bool("session.already.closed.when.the.handler.is.told") {
+			old.closed = true
+		}
 		sgetty.GetGettyClientHandlerInstance().OnClose(old)
 		old.closed = true
 		s := w.open([]string{"s2", "s3"}[l])
